@@ -19,10 +19,13 @@ CONSTANT MaxDepth
 \* cofdef: contentOf of an undefined name with a default block and data; partialvar: the partial's data is a map the caller
 \* keeps in a variable and uses again afterwards
 \* for2: two loops one after the other in one scope, the body reading x and y_i before it binds them
-Kinds == {"for", "for2", "fn", "fn2", "partial", "partialvar", "cof", "cof2", "cofdef", "blkown", "foriter", "cofdeep", "blktry"}
+Kinds == {"for", "for2", "fn", "fn2", "partial", "partialvar", "cof", "cof2", "cofdef", "blkown", "foriter", "cofdeep", "blktry",
+          \* fnloop: a function without parameters whose body is a loop -- two scopes between the caller and the body
+          "fnloop"}
 \* bind: the construct itself binds x; let: it binds an unrelated name and its body lets x;
 \* bare: it binds nothing at all (function without parameters, partial / contentOf without data) and its body lets x
-Modes == {"bind", "let", "bare"}
+\* keep: it binds nothing and its body does NOT bind x either: x read inside is the x of the nearest level above that binds it
+Modes == {"bind", "let", "bare", "keep"}
 
 \* xn: the outer name every level binds again -- "x", or the name of a built-in helper (a template's own binding of such a name
 \* is an ordinary variable: it hides the helper in every scope below it, however deep)
@@ -43,7 +46,7 @@ Probe == <<Text(<<"[">>), Emit(Id(xn)), Text(<<",">>), Emit(Id("t")), Text(<<"]"
 ProbeAfter(j) == IF j <= Len(fs) THEN <<Text(<<"(">>), Emit(Id(xn)), Emit(IfElse(Id(YN(j)), <<Text(<<"L">>)>>, <<Text(<<"-">>)>>)), Text(<<")">>)>> ELSE <<>>
 
 RECURSIVE Body(_), Construct(_)
-Body(i) == (IF fs[i].m \in {"let", "bare"} \/ fs[i].k = "foriter" THEN <<Let(xn, Str(XV(i)))>> ELSE <<>>)
+Body(i) == (IF fs[i].m \in {"let", "bare"} \/ (fs[i].k = "foriter" /\ fs[i].m # "keep") THEN <<Let(xn, Str(XV(i)))>> ELSE <<>>)
            \o <<Let(YN(i), Str(<<"y", D(i)>>))>> \o Probe
            \o (IF i < Len(fs) THEN Construct(i + 1) ELSE <<Text(<<"*">>)>>)
            \o ProbeAfter(i + 1)
@@ -52,7 +55,7 @@ Body(i) == (IF fs[i].m \in {"let", "bare"} \/ fs[i].k = "foriter" THEN <<Let(xn,
 BN(i) == IF fs[i].m = "bind" THEN xn ELSE "u"
 BV(i) == IF fs[i].m = "bind" THEN Str(XV(i)) ELSE Str(<<"u">>)
 
-Bare(i) == fs[i].m = "bare"
+Bare(i) == fs[i].m \in {"bare", "keep"}
 Construct(i) ==
   CASE fs[i].k = "for"     -> <<Emit(For("", BN(i), Arr(<<BV(i)>>), Body(i)))>>
     [] fs[i].k = "fn"      -> IF Bare(i) THEN <<Let(FNm(i), FnLit(<<>>, Body(i))), Emit(Call(FNm(i), <<>>))>>
@@ -80,6 +83,7 @@ Construct(i) ==
                                 Text(<<"/">>),
                                 Emit(Call("contentOf", <<Str(CN(i))>>)),
                                 Emit(IfElse(Id("w"), <<Text(<<"L">>)>>, <<Text(<<"-">>)>>))>>
+    [] fs[i].k = "fnloop"  -> <<Let(FNm(i), FnLit(<<>>, <<Emit(For("", BN(i), Arr(<<BV(i)>>), Body(i)))>>)), Emit(Call(FNm(i), <<>>))>>
     [] fs[i].k = "foriter" -> <<Emit(For("", "u", Call("until", <<IntL(1)>>), Body(i)))>>
     \* after contentOf returns, the loop body is still in the loop's scope: its own x and the loop variable
     [] fs[i].k = "cofdeep" -> <<Code(CallB("contentFor", <<Str(CN(i))>>, Body(i))),
@@ -102,7 +106,7 @@ Parts == [nm \in {JoinChars(PN(i)) : i \in PartIdx} |-> Body(CHOOSE i \in PartId
 
 Init == fs = <<>> /\ res = [k |-> "none"] /\ xn \in {"x", "capitalize"}
 AddFrame == /\ res.k = "none" /\ Len(fs) < MaxDepth
-            /\ \E k \in Kinds, m \in Modes : (k = "foriter" => m = "let") /\ fs' = Append(fs, [k |-> k, m |-> m])
+            /\ \E k \in Kinds, m \in Modes : (k = "foriter" => m \in {"let", "keep"}) /\ fs' = Append(fs, [k |-> k, m |-> m])
             /\ UNCHANGED <<res, xn>>
 Finish == /\ res.k = "none" /\ Len(fs) >= 1
           /\ res' = Run(Prog, WithHelpers(Data), Parts, "")
@@ -124,7 +128,7 @@ RECURSIVE Inside(_)
 ProbeText(i) == <<"[">> \o XV(i) \o <<",", "t", "0", "]">>
 AfterText(j) == IF j <= Len(fs) THEN <<"(">> \o XV(j - 1) \o <<"-", ")">> ELSE <<>>
 Inside(i) == ProbeText(i) \o (IF i < Len(fs) THEN Inside(i + 1) ELSE <<"*">>) \o AfterText(i + 1)
-ProbeTheorem == (res.k = "out" /\ \A i \in 1..Len(fs) : fs[i].k \notin {"cof2", "cofdeep", "fn2", "for2", "partialvar", "cofdef", "blktry"}) => PiecesText(res.pieces) = ProbeText(0) \o Inside(1) \o AfterText(1) \o ProbeText(0)
+ProbeTheorem == (res.k = "out" /\ \A i \in 1..Len(fs) : fs[i].k \notin {"cof2", "cofdeep", "fn2", "for2", "partialvar", "cofdef", "blktry"} /\ fs[i].m # "keep") => PiecesText(res.pieces) = ProbeText(0) \o Inside(1) \o AfterText(1) \o ProbeText(0)
 
 Expect(r) == CASE r.k = "out" -> [k |-> "out", pieces |-> r.pieces, log |-> r.log]
                [] r.k = "err" -> [k |-> "err", w |-> r.w, log |-> r.log]
